@@ -1239,7 +1239,8 @@ class SubsetSegment(DataSegment):
                 continue
             start = (part_def.start - slice_def.start)//slice_def.step
             step = part_def.step//slice_def.step
-            stop = start + step*get_slice_result_size(part_def)
+            # one beyond the last selected element, in the direction of the step
+            stop = start + step*(get_slice_result_size(part_def) - 1) + (1 if step > 0 else -1)
             out.append(slice(start, None if stop < 0 else stop, step))
         return tuple(out)
 
